@@ -191,6 +191,8 @@ func Parse(tpl []byte, keepFmt bool) (tree *Tree, err error) {
 
 	hsum := crc64.Checksum(p.tpl, crc64Tab)
 	if tree = tplDB.getTreeByHash(hsum); tree != nil {
+		// The tree of a rejected source may have been registered: the source stays rejected.
+		err = tree.err
 		return
 	}
 
@@ -198,6 +200,7 @@ func Parse(tpl []byte, keepFmt bool) (tree *Tree, err error) {
 	tree = &Tree{hsum: hsum}
 	t := p.targetSnapshot()
 	tree.nodes, _, err = p.parseTpl(tree.nodes, 0, t)
+	tree.err = err
 	return
 }
 
